@@ -499,7 +499,7 @@ def decide1(h, goto, workdir, tier_cap):
     verdicts = {}
     solvers = ["cvc5"] + (["z3"] if h.cross else [])
     for sv in solvers:
-        v, o, s = smt_solve(smt, sv, cap)
+        v, o, s = smt_solve(smt, sv, cap if sv == "cvc5" else min(cap, 60))     # the z3 cross-check of the thorough tier is capped at 60 s per harness
         verdicts[sv] = (v, o, s)
     if verdicts["cvc5"][0] not in ("sat", "unsat") and "z3" not in verdicts:
         # portfolio: cvc5 gave up (it is weak at finding models with uninterpreted functions) -> z3 5.1 on the same formula
